@@ -45,7 +45,15 @@ func c11Place(slot int, payload []byte) *table.SDTHeader {
 	b := make([]byte, hl+len(payload))
 	copy(b[0:4], "DSDT")
 	b[4], b[5], b[6], b[7] = byte(len(b)), byte(len(b)>>8), byte(len(b)>>16), byte(len(b)>>24)
-	b[8] = 2
+	// nothing in the header but Length concerns the parser: the revision (which tells an interpreter how wide its
+	// integers are, not the parser how to read a constant), the checksum and the OEM fields vary with the payload
+	b[8] = []byte{2, 1, 0, 3, 2, 255}[len(payload)%6]
+	for i := 9; i < hl; i++ {
+		b[i] = byte(len(payload)*31 + i*7)
+	}
+	if len(payload)%5 == 0 {
+		copy(b[0:4], "SSDT")
+	}
 	copy(b[hl:], payload)
 	// the header must be 4-byte aligned: pad the tail placement down to a multiple of 4 by prepending
 	pad := (4 - len(b)%4) % 4
